@@ -17,7 +17,9 @@ for d in /verif/seeded/*/; do
   [ -f $d/patch.diff ] || continue
   prop=$(python3 -c "import json;print(json.load(open('$d/meta.json'))['property'])")
   if ! git apply $d/patch.diff 2>/dev/null; then echo "| $id | $prop | - | (patch no longer applies) | |" >> $OUT; continue; fi
-  /verif/bin/cadcheck -repo $TREE -verif /verif -evidence $TMP -property all > $TMP/out.txt 2>&1
+  # SEED_ALL=1: run every property's check on every seed (slow); default: the seed's own property only
+  if [ "${SEED_ALL:-0}" = 1 ]; then PROPS=all; else PROPS=$prop; fi
+  /verif/bin/cadcheck -repo $TREE -verif /verif -evidence $TMP -property $PROPS > $TMP/out.txt 2>&1
   git checkout -- . ; git clean -fdq
   hits=$(grep "^FAIL\|^UNDECIDED" $TMP/out.txt | sed -E 's/^(FAIL|UNDECIDED) (C[0-9]+) rule=([^ ]+).*/\2:\3/' | sort -u | tr '\n' ' ')
   first=$(grep -m1 "^FAIL\|^UNDECIDED" $TMP/out.txt | cut -c1-220 | tr '|' '/')
